@@ -269,7 +269,7 @@ def main():
     d1, d2 = gen(1), gen(2)
     # unknown names written as paths through declared sections to an undeclared leaf: unknown like any other
     # ... and names that begin with a separator in front of a declared name: a stray separator resolves nothing
-    for nm in (b's|zz', b'"s|t|zz"', b'"m=0|zz"', b'|i', b'||i', b'|s', b'"|m=0|x"'):
+    for nm in (b's|zz', b'"s|t|zz"', b'"m=0|zz"', b'|i', b'||i', b'|s', b'"|m=0|x"', b'"m=|x"', b'"mt=|x"', b'"s|t=|y"'):       # ... or have a qualifier with nothing in it
         d1 += atoms(nm) + [nm + b' { }', nm + b' t { a = 1 }', nm + b' { i = x u { } }']
     shards = [(b, list(ch), dl) for b in BASES for ch in engine.chunks(d1, 40)]
     engine.phase(ck, 'single unknown item of nesting <= 1 at every boundary', shard_single, shards, items=len(d1), bases=len(BASES))
